@@ -318,6 +318,10 @@ func TestVF_C01(t *testing.T) {
 			vfFidelityCase(c, cfg, tops, specs, nil, nil)
 		}})
 	}
+	if os.Getenv("VF_PROCS") != "" {
+		vfRunCases(t, "C01", vfProcTransferCases(), 2, 400*time.Second)
+		return
+	}
 	if os.Getenv("VF_FDCASES") != "" {
 		// more files in one transfer than the process may hold open at once: descriptors in use must not
 		// grow with the number of files (one case at a time per child, GC off so finalizers cannot help)
